@@ -18,6 +18,8 @@ from xfabsa.symeval import deep_subs
 
 
 def run(ctx):
+    from xfabsa import numeric as _N
+    _N.alias_rule(ctx, 'C07', ['xfab/structure.py', 'xfab/sg.py'])
     ctx.rule("law", "F == sum_atoms sum_ops w * exp(-h (R beta R^T) h) * (f+f'+if'') * e^{2 pi i h.(R x + t)} for symbolic R, t")
     ctx.rule("loop", "all nsymop operations and all atoms contribute exactly once (nsymop = 2 and 3; 1 and 2 atoms)")
     ctx.rule("even", "every factor except the phase is even in hkl (Friedel)")
